@@ -293,6 +293,49 @@ func C18(ctx *core.Ctx) {
 		if len(coloured) < 2 {
 			continue
 		}
+		// a helper whose model-typed parameters all have different types (resolve(program, type))
+		// is polymorphic in the side like a unary one — provided each call hands it one side only
+		paired := false
+		for i := 0; i < len(coloured); i++ {
+			for j := i + 1; j < len(coloured); j++ {
+				if types.Identical(coloured[i].Type(), coloured[j].Type()) {
+					paired = true
+				}
+			}
+		}
+		if !paired {
+			for caller := range k.cone {
+				for _, c := range ssax.Calls(caller) {
+					hit := false
+					for _, t := range res(c) {
+						if t == f {
+							hit = true
+						}
+					}
+					if !hit {
+						continue
+					}
+					side := cNone
+					okSite := true
+					for i, a := range c.Args() {
+						if i >= len(f.Params) || k.param[f.Params[i]] == cNone {
+							continue
+						}
+						ca := k.of(a)
+						if ca == cNone {
+							continue
+						}
+						if ca == cMixed || (side != cNone && ca != side) {
+							okSite = false
+						}
+						side = ca
+					}
+					ctx.Check(okSite, "C18.R1", QName(caller)+sprintf(" › call of %s hands over one side only", f.Name()), cc.IPos(c.Instr), "all model arguments of the call are "+side.String(),
+						"the call mixes an OLD and a NEW argument: a type of one program is resolved through the other program")
+				}
+			}
+			continue
+		}
 		for _, p := range coloured {
 			ctx.Check(k.param[p] != cMixed, "C18.R1", QName(f)+" › parameter "+p.Name()+" has one side", cc.FPos(f), k.param[p].String()+" at every call site",
 				"parameter "+p.Name()+" receives OLD at one call site and NEW at another: somewhere the old and new arguments are swapped or the same side is passed twice")
@@ -302,6 +345,11 @@ func C18(ctx *core.Ctx) {
 			for j := i + 1; j < len(coloured); j++ {
 				a, b := coloured[i], coloured[j]
 				if !types.Identical(a.Type(), b.Type()) {
+					continue
+				}
+				// only model values pair up as (old, new); two scalars derived from one side
+				// (the bounds of the old field ids, say) are not a comparison of two programs
+				if bt, isBasic := a.Type().Underlying().(*types.Basic); isBasic && bt.Kind() != types.String {
 					continue
 				}
 				ca, cb := k.param[a], k.param[b]
@@ -548,6 +596,107 @@ func C18(ctx *core.Ctx) {
 				}
 			}
 		})
+	}
+
+	// R2 in helpers: a loop-free helper of the audit that is called from a hit/miss
+	// region (the per-declaration part of a checker, extracted) must not let the
+	// outcome of one check suppress an error-producing test: no way from its
+	// entry to a return passes a Log call but not the test.
+	{
+		isLog := func(in ssa.Instruction) bool {
+			c, ok := ssax.AsCall(in)
+			return ok && c.Method != nil && (c.Method.Name() == "LogError" || c.Method.Name() == "LogWarning")
+		}
+		inFns := map[*ssa.Function]bool{}
+		for _, f := range fns {
+			inFns[f] = true
+		}
+		done := map[*ssa.Function]bool{}
+		for _, f := range fns {
+			for _, c := range ssax.Calls(f) {
+				g := c.Static
+				if g == nil || !inFns[g] || done[g] || g == f || len(g.Blocks) == 0 {
+					continue
+				}
+				acyclic := true
+				for _, b := range g.Blocks {
+					for _, sc := range b.Succs {
+						if sc.Dominates(b) {
+							acyclic = false
+						}
+					}
+				}
+				if !acyclic {
+					continue
+				}
+				done[g] = true
+				ti := 0
+				for _, b := range g.Blocks {
+					t, ok := b.Instrs[len(b.Instrs)-1].(*ssa.If)
+					if !ok {
+						continue
+					}
+					isErrTest := false
+					own := map[*ssa.BasicBlock]bool{}
+					for _, sc := range b.Succs {
+						if len(sc.Preds) != 1 {
+							continue
+						}
+						for _, x := range sc.Instrs {
+							if isLogErr(x) {
+								isErrTest = true
+								own[sc] = true
+							}
+						}
+					}
+					if !isErrTest {
+						continue
+					}
+					ti++
+					// a compound condition A && B is one test: walk up the short-circuit predecessors
+					chain := map[ssa.Instruction]bool{t: true}
+					cur := ssa.Instruction(t)
+					for i := 0; i < 6; i++ {
+						cb := cur.Block()
+						if len(cb.Preds) != 1 {
+							break
+						}
+						pi, ok := cb.Preds[0].Instrs[len(cb.Preds[0].Instrs)-1].(*ssa.If)
+						if !ok {
+							break
+						}
+						other := pi.Block().Succs[0]
+						if other == cb {
+							other = pi.Block().Succs[1]
+						}
+						if other != cb.Succs[0] && other != cb.Succs[1] {
+							break
+						}
+						chain[pi] = true
+						cur = pi
+					}
+					isT := func(x ssa.Instruction) bool { return chain[x] }
+					var bad ssa.Instruction
+					ssax.Instrs(g, func(l ssa.Instruction) {
+						if bad != nil || !isLog(l) || own[l.Block()] {
+							return
+						}
+						isL := func(x ssa.Instruction) bool { return x == l }
+						first := g.Blocks[0].Instrs[0]
+						reach := first == l || (!isT(first) && ssax.PathFrom(g, first, isL, isT) != nil)
+						if reach && ssax.PathFrom(g, l, ssax.IsReturn, isT) != nil {
+							bad = l
+						}
+					})
+					construct := QName(g) + sprintf(" › error test #%d is not suppressed by another check's outcome", ti)
+					if bad == nil {
+						ctx.Discharge("C18.R2", construct, cc.IPos(t), "no path reports something else and skips the test")
+					} else {
+						ctx.Violate("C18.R2", construct, cc.IPos(t), "a path through "+g.Name()+" logs another finding ("+cc.IPos(bad)+") and returns without evaluating this error-producing test (exclusive switch / else-if): the breaking change it detects passes the audit whenever the other condition holds")
+					}
+				}
+			}
+		}
 	}
 
 	// ---- R3 ----------------------------------------------------------------------------------
